@@ -22,11 +22,11 @@ RULE = (
     "re-send, replace).  Invariants after every step: (I1) str(m) of every message object ever merged "
     "equals its value before its first merge, and so does what its accessors expose (story / stories / "
     "item(s) / source / target IDs and the content of carried stories and items); (I2) str(A) == str(A'); (I3) str(B) == str(B') and the "
-    "re-used object raises exactly when the fresh copy does.  Non-trivial = a step whose message "
+    "re-used object raises exactly when the fresh copy does; (I4) no Element object belongs to two of {A, A', B, B', the six most recent message objects} (shared mutable content, even where no message can yet make it visible); (I5, collections) MosReader objects handed to a second MosCollection give the same result as freshly built readers.  Non-trivial = a step whose message "
     "edits a story that an earlier message object carried, or a re-use step of a payload-carrying "
     "object; distinct = distinct (state text, message text) digests.")
-ASSUMPTIONS = ['observational only: object identity shared between trees is not reported unless it changes a str()']
-MANDATORY = ['same-object-merged-twice', 'edit-inside-carried-story', 'reuse-of-payload-object', 'reuse-after-edit',
+ASSUMPTIONS = []
+MANDATORY = ['readers-in-two-collections', 'same-object-merged-twice', 'edit-inside-carried-story', 'reuse-of-payload-object', 'reuse-after-edit',
              'carried-by:StoryAppend', 'carried-by:StoryInsert', 'carried-by:StoryReplace',
              'carried-by:EAStoryInsert', 'carried-by:EAStoryReplace', 'carried-by:StorySend']
 
@@ -71,6 +71,22 @@ class World:
                 self.fails.append(Failure(PROP, f'C13|{kind}|message-accessors-changed',
                                           f'after {what}: the accessors of a merged {kind} object expose '
                                           f'different content than before its merge', self.views[k], msg_view(obj)))
+        # no element OBJECT may belong to two of: the running orders, the merged message objects
+        trees = [('A', self.a.xml), ("A'", self.a_ref.xml), ('B', self.b.xml), ("B'", self.b_ref.xml)]
+        trees += [(f'{kind} object', obj.xml) for obj, _s, _t, kind in self.objs[-6:]]
+        owner = {}
+        for name, tree in trees:
+            for e in tree.iter():
+                other = owner.setdefault(id(e), name)
+                if other != name:
+                    kind_ = (other if 'object' in other else name).replace(' object', '')
+                    self.fails.append(Failure(PROP, f'C13|{kind_ if "object" in other + name else "running-orders"}|element-object-shared',
+                                              f'after {what}: one <{e.tag}> element object is part of both '
+                                              f'{other} and {name}: editing it in one changes the other'))
+                    break
+            else:
+                continue
+            break
         if str(self.a) != str(self.a_ref):
             self.fails.append(Failure(PROP, 'C13|running-order-differs-from-fresh-fold',
                                       f'after {what}: the running order that received live objects differs '
@@ -141,6 +157,8 @@ class World:
 
 
 def rejudge(case):
+    if 'docs' in case:
+        return judge_readers(case)
     with warnings.catch_warnings():
         warnings.simplefilter('ignore')
         w = World(case['ro_xml'])
@@ -161,7 +179,7 @@ def rejudge(case):
 
 
 def shrink(case, still):
-    return findings.shrink_list(case, 'ops', still)
+    return findings.shrink_list(case, 'docs' if 'docs' in case else 'ops', still)
 
 
 def shard(args):
@@ -201,8 +219,10 @@ def shard(args):
                 else:
                     sub, kinds = state, KINDS
                 try:
+                    # one message in three with rich content (paragraphs, notes, metadata blocks)
                     _k, text = data.draw(gen.message(sub if sub is carried_here else state, self.ro_id,
-                                                     kinds=kinds, faults='none', rich=False, mid=self.mid,
+                                                     kinds=kinds, faults='none',
+                                                     rich=data.draw(st.integers(0, 2)) == 0, mid=self.mid,
                                                      degenerate=False, dup_inserts=True))
                 except (IndexError, KeyError, ValueError, AssertionError, TypeError, AttributeError):
                     col.excluded['generator could not draw a message for the reached state'] += 1
@@ -241,8 +261,47 @@ def shard(args):
     return col
 
 
+def judge_readers(case):
+    """The same MosReader objects in two collections, one after the other."""
+    from mosromgr.moscollection import MosCollection, MosReader
+    fails = []
+    with warnings.catch_warnings():
+        warnings.simplefilter('ignore')
+        readers = [MosReader.from_string(d) for d in case['docs']]
+        fresh = MosCollection.from_strings(case['docs'], allow_incomplete=True)
+        start = str(fresh)
+        fresh.merge(strict=False)
+        want = str(fresh)
+        for n in (1, 2):
+            mc = MosCollection(list(readers), allow_incomplete=True)
+            if str(mc) != start:
+                fails.append(Failure(PROP, 'C13|readers-reused|collection-does-not-start-from-the-roCreate',
+                                     f'collection #{n} built from the same readers does not start from the '
+                                     'roCreate as written', start, str(mc)))
+            mc.merge(strict=False)
+            if str(mc) != want:
+                fails.append(Failure(PROP, 'C13|readers-reused|merge-differs-from-fresh-readers',
+                                     f'collection #{n} built from the same MosReader objects merges to a '
+                                     'different running order than freshly built readers', want, str(mc)))
+    return fails
+
+
+def shard_readers(args):
+    from vlib import colgen
+    n, seed = args
+    col = Collector(PROP)
+
+    def one(c):
+        case = {'docs': c['docs']}
+        col.record(case, len(c['docs']) >= 3, ['readers-in-two-collections'], judge_readers(case),
+                   key=h64(*c['docs']))
+    drive.run_given(colgen.collection(min_msgs=1, max_msgs=6, faults='some', rich=False), one, n, seed)
+    return col
+
+
 def run(tier, seed, procs):
     quick = tier == 'quick'
     shards, runs, steps = (8, 40, 25) if quick else (16, 1500, 50)
     cols = drive.pool_map(shard, [(runs, steps, seed * 1000 + i) for i in range(shards)], procs)
+    cols += drive.pool_map(shard_readers, [(40 if quick else 2000, seed * 1000 + 900 + i) for i in range(4)], procs)
     return drive.merge_all(PROP, cols)
